@@ -20,6 +20,7 @@ import (
 type c13Op struct {
 	Op    string `json:"op"`               // exec reexec subslice rebuild unmarshal scribble typed
 	Doc   int    `json:"doc,omitempty"`    // exec: which document (0: Events, 1: Events2); held node-sets of the other document count as "none"
+	H     int    `json:"h,omitempty"`      // exec: 1+index of the held slice that h:held() returns (0: the slice bound as $v)
 	Mode  int    `json:"mode,omitempty"`   // scribble: how the caller edits its own slice; typed: which target type
 	Expr  int    `json:"expr,omitempty"`   // index into Exprs
 	Node  string `json:"node,omitempty"`   // context node ref
@@ -176,6 +177,7 @@ func snapshotResult(r xsel.Result) string {
 }
 
 type execRecord struct {
+	h      int
 	doc    int
 	expr   int
 	node   string
@@ -222,6 +224,8 @@ func checkC13(c *c13Case) error {
 	vars := map[xsel.XmlName]xsel.Result{{Local: "n"}: xsel.Number(2), {Local: "s"}: xsel.String("a"),
 		{Space: "urn:x", Local: "n"}: xsel.Number(10), {Space: "urn:y", Local: "n"}: xsel.Number(20)}
 	funcs := map[xsel.XmlName]xsel.Function{}
+	var heldForFn xsel.NodeSet // what h:held() returns: the very slice the caller holds as $v
+	heldFn := func(xsel.Context, ...xsel.Result) (xsel.Result, error) { return heldForFn, nil }
 	records := map[int]execRecord{}
 	checkInvariants := func(step int, what string) error {
 		if d := treeDigest(p.root); d != digest {
@@ -274,6 +278,10 @@ func checkC13(c *c13Case) error {
 			callVars[xsel.XmlName{Local: "w"}] = xsel.NodeSet{}
 		}
 		before := len(callVars)
+		heldForFn, _ = callVars[xsel.XmlName{Local: "v"}].(xsel.NodeSet)
+		if op.H > 0 && op.H <= len(held) {
+			heldForFn = held[op.H-1].ns
+		}
 		apply := func(cs *xsel.ContextSettings) {
 			cs.NamespaceDecls = nsMap
 			if op.Alt {
@@ -304,6 +312,18 @@ func checkC13(c *c13Case) error {
 		if op.BindK {
 			settings = append(settings, xsel.WithNS("k", "urn:x"))
 		}
+		// a user function that hands out a node-set the caller still holds (registered per call, never in the caller's map)
+		settings = append(settings, func(cs *xsel.ContextSettings) {
+			if cs.FunctionLibrary == nil || len(cs.FunctionLibrary) == 0 && op.Plain {
+				cs.FunctionLibrary = map[xsel.XmlName]xsel.Function{}
+			}
+			if op.Plain {
+				cs.FunctionLibrary[xsel.XmlName{Space: "urn:held", Local: "held"}] = heldFn
+			}
+			if cs.NamespaceDecls != nil && op.Plain {
+				cs.NamespaceDecls["h"] = "urn:held"
+			}
+		})
 		r, err := safeExec(d.loc.ToCur[n], g, settings...)
 		if op.BindK {
 			// WithNS wrote into the caller's map: take it out again (the caller owns the map)
@@ -341,13 +361,24 @@ func checkC13(c *c13Case) error {
 			if op.W >= 0 && held[op.W].doc != op.Doc {
 				op.W = -1
 			}
+			op.H = 0
+			for i := len(held) - 1; i >= 0; i-- {
+				// h:held() preferably returns a held slice that is NOT in document order (most recent first)
+				if h := held[i]; h.doc == op.Doc && len(h.ns) >= 2 && h.ns[0].Pos() > h.ns[len(h.ns)-1].Pos() {
+					op.H = i + 1
+					break
+				}
+			}
 			what = fmt.Sprintf("exec %q on document %d from %s with $v=held[%d] $w=held[%d]", c.Exprs[op.Expr], op.Doc, op.Node, op.V, op.W)
 			snap, isErr, r := doExec(op, exprs[op.Expr])
 			if strings.HasPrefix(snap, "the caller's") {
 				return fmt.Errorf("step %d (%s): %s", step, what, snap)
 			}
 			st.Eval(1)
-			records[step] = execRecord{op.Doc, op.Expr, op.Node, op.Alt, op.BindK, op.Plain, op.V, op.W, snap, isErr}
+			if strings.Contains(c.Exprs[op.Expr], "h:held") {
+				st.Class(fmt.Sprintf("h:held() executed plain=%v error=%v v=%v", op.Plain, isErr, op.V >= 0))
+			}
+			records[step] = execRecord{op.H, op.Doc, op.Expr, op.Node, op.Alt, op.BindK, op.Plain, op.V, op.W, snap, isErr}
 			// a prefix is bound only for the query it was bound for
 			if strings.Contains(c.Exprs[op.Expr], "k:") && !op.BindK && !isErr && op.Node == "/" {
 				return fmt.Errorf("step %d (%s): the prefix k is not bound for this query (an earlier query bound it) but the query succeeded: %s", step, what, snap)
@@ -368,6 +399,12 @@ func checkC13(c *c13Case) error {
 					// the caller keeps its own copy, in a slice with room to spare (nil beyond its length)
 					own := make(xsel.NodeSet, len(ns), len(ns)+1+step%5)
 					copy(own, ns)
+					if step%3 == 0 {
+						// ... and in its own order
+						for i, j := 0, len(own)-1; i < j; i, j = i+1, j-1 {
+							own[i], own[j] = own[j], own[i]
+						}
+					}
 					ns = own
 				}
 				held = append(held, heldSet{ns, append([]store.Cursor{}, ns[:cap(ns)]...), op.Doc})
@@ -381,7 +418,7 @@ func checkC13(c *c13Case) error {
 				continue
 			}
 			what = fmt.Sprintf("re-exec of step %d: %q on document %d from %s", op.Idx, c.Exprs[rec.expr], rec.doc, rec.node)
-			snap, _, _ := doExec(c13Op{Doc: rec.doc, Expr: rec.expr, Node: rec.node, Alt: rec.alt, BindK: rec.k, Plain: rec.plain, V: rec.v, W: rec.w}, exprs[rec.expr])
+			snap, _, _ := doExec(c13Op{H: rec.h, Doc: rec.doc, Expr: rec.expr, Node: rec.node, Alt: rec.alt, BindK: rec.k, Plain: rec.plain, V: rec.v, W: rec.w}, exprs[rec.expr])
 			st.Eval(1)
 			reexecs++
 			if snap != rec.result {
@@ -408,6 +445,10 @@ func checkC13(c *c13Case) error {
 			sub := src[i:j:k]
 			held = append(held, heldSet{sub, append([]store.Cursor{}, sub[:cap(sub)]...), held[op.Idx].doc})
 			what = fmt.Sprintf("held[%d][%d:%d:%d]", op.Idx, i, j, k)
+		case "badbuild":
+			// a rejected compilation in between
+			safeBuild([]string{"a[1", "a b", "1 +", "f(", "a |", "a/", "'x", "(1"}[op.Mode%8])
+			what = "a rejected BuildExpr"
 		case "rebuild":
 			if op.Expr >= len(exprs) {
 				continue
@@ -456,7 +497,7 @@ func checkC13(c *c13Case) error {
 				held[i].full = append([]store.Cursor{}, held[i].ns[:cap(held[i].ns)]...)
 			}
 			for k, rec := range records {
-				if rec.v >= 0 || rec.w >= 0 {
+				if rec.v >= 0 || rec.w >= 0 || rec.h > 0 {
 					delete(records, k)
 				}
 			}
@@ -494,7 +535,7 @@ func checkC13(c *c13Case) error {
 		if err != nil {
 			return fmt.Errorf("BuildExpr(%q) failed on a repeat: %v", c.Exprs[rec.expr], err)
 		}
-		snap, _, _ := doExec(c13Op{Doc: rec.doc, Expr: rec.expr, Node: rec.node, Alt: rec.alt, BindK: rec.k, Plain: rec.plain, V: rec.v, W: rec.w}, &g)
+		snap, _, _ := doExec(c13Op{H: rec.h, Doc: rec.doc, Expr: rec.expr, Node: rec.node, Alt: rec.alt, BindK: rec.k, Plain: rec.plain, V: rec.v, W: rec.w}, &g)
 		st.Eval(1)
 		if snap != rec.result {
 			return fmt.Errorf("a freshly built %q on document %d from %s gave a different result than the reused expression at step %d", c.Exprs[rec.expr], rec.doc, rec.node, step)
@@ -558,6 +599,7 @@ func TestC13(t *testing.T) {
 			"$v//*", "$v/descendant-or-self::*", "$w/ancestor-or-self::*", "$v/descendant-or-self::node()", "$w/ancestor-or-self::node()", "$v/following::*", "$w/preceding::*", "$v/*", "$w/@*", "$v/namespace::*",
 			"$v/following-sibling::*", "$w/preceding-sibling::*", "$v/descendant::*", "$w/ancestor::*", "$v/parent::*", "$v/self::*",
 			// literals with backslashes (single-quoted: plain characters)
+			"h:held()[1]", "h:held()[last()]", "(h:held())[. = 1]", "h:held() | //a", "h:held()/self::*", "count(h:held()[position() > 1])",
 			"'a\\b'", "//*[. = 'x\\ty']", "concat('\\n', 'q', name(/*))", "string-length('\\r\\n-')"}
 		for i, n := 0, rapid.IntRange(3, 6).Draw(t, "nExprs"); i < n; i++ {
 			if rapid.Bool().Draw(t, "fixedExpr") {
@@ -570,6 +612,8 @@ func TestC13(t *testing.T) {
 		var execs []int
 		for i, n := 0, rapid.IntRange(4, 25).Draw(t, "nOps"); i < n; i++ {
 			switch k := rapid.IntRange(0, 12).Draw(t, "op"); {
+			case k == 9 && rapid.Bool().Draw(t, "badBuild"):
+				c.Ops = append(c.Ops, c13Op{Op: "badbuild", Mode: rapid.IntRange(0, 7).Draw(t, "bad")})
 			case k == 10 && nHeld > 0:
 				c.Ops = append(c.Ops, c13Op{Op: "scribble", Idx: rapid.IntRange(0, nHeld-1).Draw(t, "which"), Mode: rapid.IntRange(0, 2).Draw(t, "scribbleMode")})
 			case k == 11 || k == 12 && nHeld == 0:
